@@ -234,6 +234,8 @@ class ExprMixin:
             if len(l.items) == 1:
                 return ListV("rep", elem=l.items[0], n=r.r)
             raise Unmodelled("repetition of a multi-element list at %s" % frame.loc(node))
+        if isinstance(op, ast.Add) and isinstance(l, TupV) and isinstance(r, TupV) and not l.is_array and not r.is_array:
+            return TupV(list(l.items) + list(r.items))    # plain tuples concatenate (arrays add elementwise, below)
         if isinstance(op, ast.Add) and isinstance(l, ListV) and isinstance(r, ListV):
             if l.kind == "lit" and r.kind == "lit":
                 return ListV("lit", items=l.items + r.items)
